@@ -556,7 +556,9 @@ def lifecycle_cases(requests=('incr', 'decr', 'set', 'restart', 'reload',
             pool.append(req('signal', st.fixed_dictionaries(
                 {"name": name, "signum": st.sampled_from(
                     [15, 1, 10, 9, 19, 19, 18] if job_control
-                    else [15, 1, 10, 9])})))
+                    else [15, 1, 10, 9])},
+                optional={"recursive": st.just(True),
+                          "children": st.just(True)})))
         if rm:
             pool.append(req('rm', ww(st.fixed_dictionaries(
                 {"name": name}, optional={"nostop": st.booleans()}))))
